@@ -1,3 +1,4 @@
+import Proofs.BfsComplete
 import Proofs.LoadComplete
 import Proofs.LoadDag
 /-!
@@ -87,5 +88,33 @@ theorem honest_load_reproduces_ledger (src : Book) (r : Reachable src) (hcp : sr
     (dst.loadDag stream scan (some root)).1.index = stream.map (fun v => (v.trx.hash, v.hash)) ∧
     (∀ e, e ∈ (dst.loadDag stream scan (some root)).1.edges ↔ e ∈ src.edges) :=
   loadDag_reproduces src r hcp hgen dst hd1 hd2 hd3 hd4 stream scan hs hsc root hroot hrootBare
+
+/-- **The peer's stream is complete**: StreamDAG, visiting the tips in any order, emits every live vertex of
+a reachable ledger exactly once. -/
+theorem stream_is_complete {src : Book} (r : Reachable src) (order : List Vertex) (ho : order.Perm src.leaves) :
+    (src.streamDag order).Perm src.verts := by
+  have hnd : (src.verts.map (·.hash)).Nodup := by
+    have := r.inv.idx.nodupV
+    unfold allV at this
+    rw [List.map_append] at this
+    exact (List.nodup_append.mp this).1
+  exact streamDag_perm src r.edgeInv hnd order ho
+
+/-- **End to end**: what an honest, untruncated peer streams (tips visited in any order), delivered to a fresh
+node in any order and scanned by the loader in any order, reproduces the peer's ledger. -/
+theorem stream_then_load_reproduces (src : Book) (r : Reachable src) (hcp : src.cpVerts = [])
+    (hgen : ∀ v ∈ src.verts, v.left = 0 → v.trx.isEmpty = false)
+    (order : List Vertex) (ho : order.Perm src.leaves)
+    (dst : Book) (hd1 : dst.verts = []) (hd2 : dst.edges = []) (hd3 : dst.index = []) (hd4 : dst.loaded = false)
+    (arrival scan : List Vertex) (ha : arrival.Perm (src.streamDag order)) (hsc : scan.Perm arrival)
+    (root : Vertex) (hroot : root ∈ src.verts) (hrootBare : ∀ e ∈ src.edges, e.2 ≠ root.hash) :
+    (dst.loadDag arrival scan (some root)).2 = .ok () ∧
+    (dst.loadDag arrival scan (some root)).1.loaded = true ∧
+    (dst.loadDag arrival scan (some root)).1.verts = arrival ∧
+    (∀ e, e ∈ (dst.loadDag arrival scan (some root)).1.edges ↔ e ∈ src.edges) := by
+  have hs := ha.trans (stream_is_complete r order ho)
+  obtain ⟨c1, c2, _, c4, _, c6⟩ := honest_load_reproduces_ledger src r hcp hgen dst hd1 hd2 hd3 hd4 arrival scan hs (hsc.trans hs)
+    root hroot hrootBare
+  exact ⟨c1, c2, c4, c6⟩
 
 end Props.C14
